@@ -66,6 +66,8 @@ def check(run):
         _C05.track(R)
     from . import C01
     with R.as_rule('C04.table'):
+        C01.alias(R)             # messages completed before the violation are delivered as received (no aliasing of the
+                                 # reused receive buffer by frames still waiting for their FIN)
         C01.conserve(R)
         from . import C05
         C05.strict(R)            # invalid UTF-8 in text / close reason: the strict whole-payload decode is the check site
